@@ -38,7 +38,7 @@ PROPS = {
         ],
     },
     "C10": {
-        "units": ["hooks", "setenv", "config", "storage", "schedule", "issue"],
+        "units": ["hooks", "setenv", "config", "storage", "schedule", "issue", "evloop"],
         "design_ref": "DESIGN.md section 5 C10",
         "technique": "Verus function contracts over a ghost sequence of spawned processes; recursive spec for group expansion; ghost event trace for the file-write bracket",
         "text": "Deductive proof that hooks::call spawns exactly the hooks whose type list contains the event type, in declaration order, "
@@ -50,7 +50,8 @@ PROPS = {
             "T: async_process::Command / Stdio / Child as modelled in prelude/hooks_shims.rs; minijinja rendering is the uninterpreted render_spec",
             "T: HookType obeys the hash-map key model (derived Hash/Eq)",
             "T: std::env::vars and HashMap<String,String>::{entry().or_insert, insert, iter} as modelled in prelude/setenv_shims.rs (set_env itself is verified, three macro expansions)",
-            "X: the split of a certificate's hooks into file hooks and certificate hooks (MainEventLoop::new); what the child processes do",
+            "T: in unit evloop the configuration getters are the uninterpreted functions their contracts in unit config define; string-keyed HashMaps are maps of texts (prelude/evloop_shims.rs)",
+            "X: what the child processes do",
         ],
     },
     "C11": {
@@ -72,7 +73,7 @@ PROPS = {
         ],
     },
     "C13": {
-        "units": ["storage", "config"],
+        "units": ["storage", "config", "evloop"],
         "design_ref": "DESIGN.md section 5 C13",
         "technique": "Verus function contracts over ghost open/chown events",
         "text": "Deductive proof that a created file gets the mode configured for its type (0600 pinned for accounts), that key and "
@@ -81,11 +82,11 @@ PROPS = {
         "assumptions": [
             "T: open(2) applies mode & ~umask at creation only; nix user/group lookup as modelled (user_db/group_db)",
             "T: `s.bytes().all(|b| b.is_ascii_digit())` and `s.parse::<u32>()` are the uninterpreted all_digits / parse_u32_spec",
-            "X: how FileManager is filled from the configuration (MainEventLoop::new); observing real files",
+            "X: observing real files",
         ],
     },
     "C14": {
-        "units": ["config"],
+        "units": ["config", "evloop"],
         "design_ref": "DESIGN.md section 5 C14",
         "technique": "Verus function contracts: three-level getters against a 'most specific wins' spec function; include loop with ghost set of opened files",
         "text": "Deductive proof that renew_delay, random_early_renew, file_name_format and the storage directory resolve to the most "
@@ -96,7 +97,7 @@ PROPS = {
             "T: canonicalize returns a path from a finite universe of configuration files; toml/serde deserialisation; glob expansion (get_cnf_path is a stub)",
             "T: derive(Clone)/derive(Default) of the config structs mean structural copy / empty lists (restated as trusted specs)",
             "T: parse_duration is the uninterpreted pd_spec here (its own contract is proved in unit duration)",
-            "X: duplicate certificate id and unknown account (MainEventLoop::new); global env dispatch to certificates (HashMap iteration)",
+            "X: global env dispatch to certificates (dispatch_global_env_vars: HashMap iteration)",
         ],
     },
     "C15": {
